@@ -3,7 +3,7 @@
 (* Input: trace.ndjson, one event per call on the real LayerManager (or on  *)
 (* the FUSE bridge over fs.go), recorded by harness/store after the resolve *)
 (* goroutines of the call have finished. Traces are separated by "Reset".   *)
-(*   Lookup  r, t, kind, fail (array), res                                  *)
+(*   Lookup  r, t, kind, fail (array), cancel (caller gave up), res          *)
 (*   Use     r, t, res, n (manager mode only)                               *)
 (*   Release r, t, res, n (manager mode only)                               *)
 (*   layer, cnt, memo, out, pool, kids (fuse)   projection AFTER the call;  *)
@@ -45,7 +45,7 @@ TraceReset ==
 
 TraceLookup ==
     /\ IsEvent("Lookup")
-    /\ Lookup(Ev.r, Ev.t, Ev.kind, SeqRange(Ev.fail))
+    /\ Lookup(Ev.r, Ev.t, Ev.kind, SeqRange(Ev.fail), Ev.cancel)
     /\ last'.res = Ev.res
     /\ ObsOK
 TraceUse ==
